@@ -331,6 +331,10 @@ def check(ctx):
     # comprehensions nested inside each other re-using session names: the session reads as before afterwards
     import nested_common
     nested_common.run(ctx, ctx.n(400, 6000), "nested")
+    # the unit namespace: quantities assigned to names that spell units (registered or prefixed) do not change the units
+    import namespace_common
+    namespace_common.run(ctx, "ns")
+    namespace_common.run(ctx, "ns")
 
 
 # ---- refinement lemmas of the unified pipeline model for this property (Props/PipelineArr.lean): the scope of
